@@ -8704,7 +8704,7 @@ class Image(SVGElement, GraphicObject, Transformable):
         GraphicObject.property_by_object(self, s)
         self.url = s.url
         self.data = s.data
-        self.viewbox = s.viewbox
+        self.viewbox = Viewbox(s.viewbox) if s.viewbox is not None else None
         self.preserve_aspect_ratio = s.preserve_aspect_ratio
 
         self.x = s.x
